@@ -5,16 +5,18 @@ REAL_STUB = {
     "real": ["TOML loading", "MainEventLoop::{new,run}", "renew_certificate", "certificate.rs", "acme_proto/*",
              "http.rs above send()", "endpoint.rs rate limiter", "jws.rs", "account*.rs", "storage.rs (real syscalls on a scratch dir)",
              "hooks.rs above spawn()", "template.rs", "identifier.rs", "duration.rs", "acme_common::crypto on the real OpenSSL",
-             "async-lock", "futures::FuturesUnordered"],
+             "async-lock (one comparison of its mutex reads the virtual clock)", "futures::FuturesUnordered"],
     "stub": ["tokio runtime/timers/fs (own single-task executor with a virtual clock)", "reqwest/hyper/native-tls below send() and client construction",
-             "async-process and every child (simulated program simhook)", "OS clocks", "thread_rng", "hash order of the main loop's maps",
+             "async-process and every child (simulated program simhook)", "OS clocks", "thread_rng", "OpenSSL's random generator (seeded per plan)",
+             "hash order of the main loop's maps and of the CSR subject attributes",
              "the CA (reference model written from the RFCs)", "validation targets"],
 }
 
 _COMMON_ASSUME = [
     "the model CA is the reference for RFC 8555 behaviour (its verifier is self-tested against RFC 7515/8037 vectors at every run)",
     "acmed has a single task (nothing is spawned), so the completion order owned by the executor is its whole schedule space",
-    "crypto is real OpenSSL; key material is random and never influences a scheduling decision",
+    "crypto is real OpenSSL; its random bytes come from a generator seeded by the plan, so key material and signatures are functions of the plan",
+    "every run executes in a process image of its own (fork per plan, replay and shrink candidate): nothing process-wide survives from one plan to the next",
 ]
 
 RECIPES = {}
@@ -142,12 +144,15 @@ reg("C12", "exploration",
 reg("C11", "exploration",
     "F6: random histories of length 1..6 over {edit contacts, change key type, change both, toggle external binding, restart, renew on endpoint 0|1|2, CA forgets the account} for one "
     "account on 1..3 endpoints, each followed by a renewal of every endpoint (three attempts allowed); F6x: ALL histories of length <= 4 over 9 steps, one and two endpoints (exhaustive, "
-    "thorough tier); F6c: the daemon dies at the n-th storage/network/hook event (incl. between chunks of an account save) and is started again; F6t: 216 account shapes (6 key types x "
+    "thorough tier); F6c: the daemon dies at the n-th storage/network/hook event (incl. between chunks of an account save, and between the delivery of a request and its reply) and is started again; "
+    "F6f: one request of the synchronisation traffic (account update, key roll-over, registration) is cut before delivery, processed with its reply lost, or refused; F6t: 216 account shapes (6 key types x "
     "1..3 endpoints x 0..2 superseded keys x ASCII/Unicode name x binding) each cut at EVERY offset and booted. Oracles: newAccount only with no stored URL / after accountDoesNotExist / "
     "changed binding; after each successful renewal the CA's record (key thumbprint, contacts) equals the configuration, at most one update per item; in-memory account before a quiescent "
-    "stop equals the account loaded at the next boot; a truncated account file => the daemon refuses to start and the file is untouched. Non-trivial = a renewal was judged, a restart compared, "
+    "stop equals the account loaded at the next boot; a truncated account file => the daemon refuses to start and the file is untouched; the final renewal of every endpoint (three attempts) "
+    "must succeed, also in plans with network faults once two of those attempts began after the last fault (except after a roll-over whose reply was lost). Non-trivial = a renewal was judged, a restart compared, "
     "or a truncation point booted.",
     quick=[("F6", 500), ("F6c", 300), ("F6f", 300), ("F6t", 6)], thorough=[("F6", 20000), ("F6x", 20000), ("F6c", 10000), ("F6f", 10000), ("F6t", 216)],
     assumptions=["restart = the daemon's future is dropped (process-crash model: completed write(2)s survive; acmed never syncs, so power loss is not claimed)",
-                 "an attempt that fails while the record is already in line is C07's matter; reported here only if three further attempts do not converge"],
+                 "an attempt that fails while the record is already in line is C07's matter; reported here only if three further attempts do not converge",
+                 "simulated restarts inside one plan share one process image (a process-wide cache added by a change would survive them); every plan starts in a fresh one"],
     exhaustive_families=["F6x", "F6t"])
